@@ -319,6 +319,9 @@ func main() {
 			err = corr.MidFrameOutage(d, res, *seed)
 		}
 		if err == nil && *replay == "" {
+			err = corr.ZeroBackoff(res, *seed)
+		}
+		if err == nil && *replay == "" {
 			// a link that dies silently while the client is writing: the client must notice, redial and heal
 			err = corr.SilentStall(d, res, *seed)
 		}
